@@ -31,7 +31,7 @@ theorem iter_safe (d : Bytes) (hb : BytesOk d) (nbFrames : Nat) (it : Iter) (hr 
   have : ExtOk it' e := h4
   unfold ExtOk at this
   rw [h3.2.1, h3.2.2.1, hlen, hnf] at this
-  exact this
+  exact ⟨this.1, this.2.1, this.2.2.1, this.2.2.2.1, this.2.2.2.2.1⟩
 
 /-- **iter_safe (termination).**  `next` itself is a total function (its loops and its recursive call
     are defined by well-founded recursion, no fuel); and every caller loop
